@@ -1,1 +1,4 @@
-pub fn x(){}
+pub mod c08;
+pub mod clockq;
+pub mod common;
+pub mod shim;
